@@ -85,6 +85,17 @@ theorem fromIter_eq (dr : Bool) (empty : Cols) (es : List Cols) (hp : (Model.ext
   rw [methods_eq, h]
   rw [extend_shape es empty, hp]
 
+/-- the extracted `Extend<Ref>::extend` reads as the `Extend<T>` loop over `to_owned` copies -/
+theorem extendRefs_reads : isOwnedExtend Extracted.lp_PVec_Extend_PRef_a_extend = true := by decide
+
+/-- `Extend<Ref>` (`vec.extend(&other)`, `vec.extend(other.iter())`) is `extend_from_slice`: the elements of the
+    source cloned one whole element at a time, so a panicking `Clone` leaves whole elements only -/
+theorem extendRefs_eq (dr : Bool) (c src : Cols) : extendRefs dr c src = Model.extendFromSlice c src := by
+  unfold extendRefs
+  rw [extendRefs_reads]
+  simp only [↓reduceIte, extend_eq]
+  rfl
+
 /-- `extend_from_slice`: contents and panic flag (the clone events are the same up to their order) -/
 theorem extendFromSlice_core (dr : Bool) (c d : Cols) :
     core (extendFromSlice dr c d) = core (Model.extendFromSlice c d) := by
